@@ -174,7 +174,9 @@ fn table_probe<E: EndianParse, P: ParseAt + core::fmt::Debug>(t: &ParsingTable<'
 
 fn note_items<E: EndianParse>(it: NoteIterator<'_, E>, bound: u64, st: &mut WalkStats) {
     st.flags |= F_NOTES;
-    drive(it, bound, "NoteIterator", st, |n, st| match n {
+    drive(it, bound, "NoteIterator", st, |n, st| {
+        let _ = write!(st.sink, "{:?}", n);
+        match n {
         Note::GnuAbiTag(t) => st.sink.0 = st.sink.0.wrapping_add(t.os as u64 + t.major as u64),
         Note::GnuBuildId(b) => st.sink.0 = st.sink.0.wrapping_add(b.0.len() as u64),
         Note::Unknown(a) => {
@@ -183,6 +185,7 @@ fn note_items<E: EndianParse>(it: NoteIterator<'_, E>, bound: u64, st: &mut Walk
                 Ok(s) => st.sink.0 = st.sink.0.wrapping_add(s.len() as u64),
                 Err(e) => absorb(&e, st),
             }
+        }
         }
     });
 }
@@ -364,6 +367,13 @@ fn deep<'d, E: EndianParse + core::fmt::Debug>(f: &ElfBytes<'d, E>, data: &'d [u
                     }
                 }
             }
+        }
+    }
+    // many by-name lookups on this one handle (a handle must not start to behave differently after some number of calls)
+    for k in 0..70 {
+        let name = [".text", ".dynsym", ".nosuch", ".shstrtab", ""][k % 5];
+        if let Some(Some(h)) = fold!(st, f.section_header_by_name(name)) {
+            st.sink.0 = st.sink.0.wrapping_add(h.sh_offset);
         }
     }
     for k in 0..4 {
